@@ -129,6 +129,11 @@ type RPCSpec struct {
 	stream   grpc.ClientStream
 	hdrOpt   metadata.MD
 	trlOpt   metadata.MD
+	// second targets of the same kind on the same call (a wrapper or interceptor adding its own
+	// option next to the application's): every target must be filled alike
+	hdrOpt2  metadata.MD
+	trlOpt2  metadata.MD
+	chanOpt2 grpctunnel.TunnelChannel
 	peerOpt  peer.Peer
 	chanOpt  grpctunnel.TunnelChannel
 	invoked  atomic.Int32
@@ -268,6 +273,8 @@ type Env struct {
 	wg    sync.WaitGroup
 	// Identity is what handlers of a given serving instance report
 	Panics []string
+	// Anomaly, if set, receives violations that the actors detect themselves.
+	Anomaly func(prop, key, msg string)
 }
 
 // NewEnv creates an environment (inside the bubble, if any).
@@ -749,16 +756,16 @@ func (e *Env) StartRPC(parent context.Context, ch grpc.ClientConnInterface, spec
 func (spec *RPCSpec) callOpts() []grpc.CallOption {
 	var opts []grpc.CallOption
 	if spec.UseHeaderOpt {
-		opts = append(opts, grpc.Header(&spec.hdrOpt))
+		opts = append(opts, grpc.Header(&spec.hdrOpt2), grpc.Header(&spec.hdrOpt))
 	}
 	if spec.UseTrailerOpt {
-		opts = append(opts, grpc.Trailer(&spec.trlOpt))
+		opts = append(opts, grpc.Trailer(&spec.trlOpt2), grpc.Trailer(&spec.trlOpt))
 	}
 	if spec.UsePeerOpt {
 		opts = append(opts, grpc.Peer(&spec.peerOpt))
 	}
 	if spec.UseChanOpt {
-		opts = append(opts, grpctunnel.WithTunnelChannel(&spec.chanOpt))
+		opts = append(opts, grpctunnel.WithTunnelChannel(&spec.chanOpt2), grpctunnel.WithTunnelChannel(&spec.chanOpt))
 	}
 	if spec.Creds != nil {
 		opts = append(opts, grpc.PerRPCCredentials(staticCreds(spec.Creds)))
@@ -913,6 +920,17 @@ func (e *Env) captureOpts(rec *OpRec, spec *RPCSpec) {
 	}
 	if spec.UseChanOpt {
 		rec.Extra["chan_opt"] = fmt.Sprintf("%p", spec.chanOpt)
+	}
+	if e.Anomaly != nil {
+		if spec.UseHeaderOpt && mdString(spec.hdrOpt) != mdString(spec.hdrOpt2) {
+			e.Anomaly("C02", "option-targets-differ:header", fmt.Sprintf("rpc %s: two grpc.Header targets on one call were filled differently: %s vs %s", spec.ID, mdString(spec.hdrOpt2), mdString(spec.hdrOpt)))
+		}
+		if spec.UseTrailerOpt && mdString(spec.trlOpt) != mdString(spec.trlOpt2) {
+			e.Anomaly("C02", "option-targets-differ:trailer", fmt.Sprintf("rpc %s: two grpc.Trailer targets on one call were filled differently: %s vs %s", spec.ID, mdString(spec.trlOpt2), mdString(spec.trlOpt)))
+		}
+		if spec.UseChanOpt && spec.chanOpt != spec.chanOpt2 {
+			e.Anomaly("C17", "with-tunnel-channel-wrong", fmt.Sprintf("rpc %s: two WithTunnelChannel targets on one call were filled differently: %p vs %p", spec.ID, spec.chanOpt2, spec.chanOpt))
+		}
 	}
 }
 
